@@ -24,5 +24,7 @@ class ConstraintOverrideRollbackVisitor(ConstraintOverrideVisitor):
         if c.depth <= 0:
             # roll this constraint back to the original
             self.scope_s[-1].constraint_l[self.scope_i] = c.orig_constraint
+            # ... and anything that was replaced inside the original
+            c.orig_constraint.accept(self)
     
     
